@@ -27,5 +27,9 @@ static char *verif_strchr(const char *s, int c);
 static const long mtime = 1;
 #define mtime(p) mtime_fn(p)
 #include "ex.c"
+/* fixed-size struct copies in the 16-slot buffer table: CBMC's builtin memcpy/memmove/memset are exact */
+#define NO_STUB_MEMCPY
+#define NO_STUB_MEMMOVE
+#define NO_STUB_STRLEN
 #include "libc.spec.h"
 #include "ex.spec.h"
